@@ -9,23 +9,35 @@ use serde_json::Value;
 use std::collections::BTreeMap;
 
 /// Curated templates: diverge at an escape, inside a group, at a group boundary, at a multi-byte character (also at two
-/// characters sharing their first UTF-8 byte), after an unbalanced literal parenthesis,
+/// characters sharing their first UTF-8 byte), after an unbalanced literal parenthesis, inside a marker whose character class holds a parenthesis,
 /// or are prefixes of one another. Patterns are produced from them exactly as rules produce them.
 pub const CURATED: &[&str] = &[
-    "/", "/a", "/a/b", "/a.b", "/a-b", "/a/@id", "/a/@id/b", "/a/@w", "/a/@lang", "/a/@lang/x", "/é", "/éx", "/é/@id", "/a)/@id/b", "/a)/@id/c", "/èx",
+    "/", "/a", "/a/b", "/a.b", "/a-b", "/a/@id", "/a/@id/b", "/a/@w", "/a/@lang", "/a/@lang/x", "/é", "/éx", "/é/@id", "/a)/@id/b", "/a)/@id/c", "/èx", "/a/@par/b", "/a/@par/c",
 ];
 /// Wider pool for the random histories.
 pub const TEMPLATES: &[&str] = &[
     "/", "/a", "/a/b", "/a.b", "/a-b", "/a/@id", "/a/@id/b", "/a/@a", "/a/@lang", "/a/@lang/x", "/é", "/éx", "/é/@id", "/a(b)", "/A/b", "/a/@slug", "/a/@slug/@id", "/a/@any", "/a/@mix",
-    "/a/@up", "/foo/@bad", "/foo/@bad/x", "/a/@pet", "/a+b", "/a[b", "/a\\b", "/a/@id-@b", "/p/@a-@b", "/日本/@id", "/日本", "/a/b/c/d", "/a/b/c/e", "@any", "@lang/x", "/è", "/èx", "/日月", "/ü/@id", "/ö/@id", "/a)/@id/b", "/a)/@id/c", "/a)/@id", "/a)/@a", "/:)/@slug/x", "/:)/@slug/y", "/a(/@id/b", "/a(/@id/c", "/a/@w", "/a/@w/x", "/a/@d", "@w.example", "@d/x",
+    "/a/@up", "/foo/@bad", "/foo/@bad/x", "/a/@pet", "/a+b", "/a[b", "/a\\b", "/a/@id-@b", "/p/@a-@b", "/日本/@id", "/日本", "/a/b/c/d", "/a/b/c/e", "@any", "@lang/x", "/è", "/èx", "/日月", "/ü/@id", "/ö/@id", "/a)/@id/b", "/a)/@id/c", "/a)/@id", "/a)/@a", "/:)/@slug/x", "/:)/@slug/y", "/a(/@id/b", "/a(/@id/c", "/a/@w", "/a/@w/x", "/a/@d", "@w.example", "@d/x", "/a/@par/b", "/a/@par/c", "/a/@par", "/x/@opar/a", "/x/@opar/b", "/a/@nd", "/a/@par/@opar",
+];
+
+/// Arbitrary expressions, not of the rule shape ("raw:" templates are used verbatim). They are outside C08's domain
+/// (the linear-scan oracle is only claimed for rule-shaped patterns) and are used by C12, whose twin oracle needs no such restriction.
+pub const RAW: &[&str] = &[
+    "raw:/ab{2}", "raw:/ab{3}", "raw:/a[0-9]x", "raw:/a[0-5]y", "raw:/a|/b", "raw:/a|/c", "raw:/a(?:b|c)d", "raw:/a+", "raw:/a+b", "raw:/a\\d+", "raw:/a\\D+", "raw:/a.*", "raw:/a.*b", "raw:/a(?P<n>b)?c", "raw:/a(?P<n>b)?d",
 ];
 
 pub fn pattern_of(template: &str) -> String {
+    if let Some(raw) = template.strip_prefix("raw:") {
+        return raw.to_string();
+    }
     let markers: Vec<_> = template_markers(template).into_iter().map(marker_spec).collect();
     template_regex(template, &markers).unwrap_or_else(|| regex::escape(template))
 }
 
 pub fn haystacks_of(template: &str) -> Vec<String> {
+    if template.starts_with("raw:") {
+        return ["/abb", "/abbb", "/a3x", "/a4y", "/a7y", "/a", "/b", "/c", "/abd", "/acd", "/aa", "/aab", "/a1", "/ax", "/axb", "/abc", "/ac", "/ad"].iter().map(|s| s.to_string()).collect();
+    }
     let mut v = vec![instantiate(template, 0, false), instantiate(template, 1, false), instantiate(template, 1, true), instantiate(template, 5, true)];
     let base = v[0].clone();
     v.push(base.to_uppercase());
@@ -83,39 +95,38 @@ fn depth(n: &VerifNode) -> usize {
     1 + n.children.iter().map(depth).max().unwrap_or(0)
 }
 
-/// Structural invariant through the hook: each node prefix is a string prefix of every pattern below it and compiles
-/// whenever some pattern below compiles; no empty leaf; (pattern) leaves are unique.
-fn check_shape(n: &VerifNode, ci: bool, prefixes: &mut Vec<String>, leaves: &mut Vec<String>) -> Option<String> {
+/// Structural invariant through the hook - the *prefix invariant* the property's anchor names: each node prefix is a
+/// string prefix of every pattern stored below it. Other shape facts (one leaf per pattern, no empty leaf, flag kept on
+/// empty items) are implementation choices that a behaviour-preserving refactoring may change: they are only recorded
+/// in `notes` (class histogram), never raised - their observable consequences are caught by the behavioural oracle.
+fn check_shape(n: &VerifNode, ci: bool, prefixes: &mut Vec<String>, leaves: &mut Vec<String>, notes: &mut Vec<&'static str>) -> Option<String> {
     if n.ignore_case != ci {
-        return Some(format!("{} '{}' carries case flag {} instead of {}", n.kind, n.original, n.ignore_case, ci));
+        notes.push("shape-note:case-flag-differs");
     }
     match n.kind {
         "leaf" => {
             if n.ids.is_empty() {
-                return Some(format!("empty leaf '{}' survived", n.original));
+                notes.push("shape-note:empty-leaf");
             }
             for p in prefixes.iter() {
                 if !n.original.starts_with(p.as_str()) {
-                    return Some(format!("leaf '{}' is below node prefix '{}' which is not a prefix of it", n.original, p));
+                    return Some(format!("prefix invariant: leaf '{}' is below node prefix '{}' which is not a prefix of it", n.original, p));
                 }
             }
             if leaves.contains(&n.original) {
-                return Some(format!("two leaves hold the pattern '{}'", n.original));
+                notes.push("shape-note:two-leaves-one-pattern");
             }
             leaves.push(n.original.clone());
-            if n.regex != format!("^{}$", n.original) {
-                return Some(format!("leaf regex '{}' is not the anchored pattern '{}'", n.regex, n.original));
-            }
         }
         "node" => {
             for p in prefixes.iter() {
                 if !n.original.starts_with(p.as_str()) {
-                    return Some(format!("node '{}' is below node prefix '{}' which is not a prefix of it", n.original, p));
+                    return Some(format!("prefix invariant: node '{}' is below node prefix '{}' which is not a prefix of it", n.original, p));
                 }
             }
             prefixes.push(n.original.clone());
             for c in &n.children {
-                if let Some(e) = check_shape(c, ci, prefixes, leaves) {
+                if let Some(e) = check_shape(c, ci, prefixes, leaves, notes) {
                     return Some(e);
                 }
             }
@@ -281,9 +292,13 @@ pub fn check(case: &Case) -> Outcome {
             return out;
         }
         let snap = tree.snapshot();
-        if let Some(e) = check_shape(&snap, ci, &mut Vec::new(), &mut Vec::new()) {
+        let mut notes = Vec::new();
+        if let Some(e) = check_shape(&snap, ci, &mut Vec::new(), &mut Vec::new(), &mut notes) {
             out.fail(format!("step {step} ({op:?}): {e}"));
             return out;
+        }
+        for n in notes {
+            out.class(n);
         }
         max_depth = max_depth.max(depth(&snap));
     }
@@ -393,8 +408,8 @@ pub fn run(ctx: &Ctx) -> Report {
         "C08",
         "case = history over insert(p,id,v) / remove(id) / retain(pred) / cache(limit,level) on RegexTreeMap and UniqueRegexTreeMap in both case modes, patterns produced from templates exactly as rules produce them \
          (escaped literal text interleaved with (?:marker expr), incl. multi-byte text, escaped parentheses and a non-compiling marker); oracle after every step: sorted find(s) == sorted { v | (p,id,v) live and ^p$ matches s } over instantiations / near misses / case swaps, \
-         len() == |live|, get(p) == values stored under p, iter() == all live values, remove(id) returns the stored value, and through the read-only hook: every node prefix is a string prefix of all patterns below it, no empty leaf, one leaf per pattern, case flag kept; \
-         exhaustive part: every subset of size <=3 (quick) / <=4 (thorough) of 16 curated patterns x every insertion order x every removal subset x both case modes, followed by a re-insertion and a replacement; \
+         len() == |live|, get(p) == values stored under p, iter() == all live values, remove(id) returns the stored value, and through the read-only hook the prefix invariant: every node prefix is a string prefix of all patterns below it (other shape facts are only recorded); \
+         exhaustive part: every subset of size <=3 (quick) / <=4 (thorough) of the curated patterns x every insertion order x every removal subset x both case modes, followed by a re-insertion and a replacement; \
          non-trivial = tree depth >= 2 and some haystack matched by some but not all live values; distinct by case hash",
     );
     rep.assume("domain exclusions O1 (empty pattern) and O2 (parenthesis inside a character class); ids are unique among live values, as rule ids are");
@@ -405,7 +420,7 @@ pub fn run(ctx: &Ctx) -> Report {
         "exhaustive-small-scope",
         n,
         true,
-        &format!("{n} (subset, insertion order, removal subset, case flag) combinations over the 16 curated patterns {:?}", CURATED),
+        &format!("{n} (subset, insertion order, removal subset, case flag) combinations over the {} curated patterns {:?}", CURATED.len(), CURATED),
         |i| Some(cases[i as usize].clone()),
         |c| {
             let mut o = check(c);
